@@ -17,7 +17,7 @@ NA = {
  "C17": "Keyset derivation is a deterministic function of (keyset, salt); it reads no RNG, clock or I/O.",
 }
 
-PENDING = {k: "claimed in DESIGN.md; its simulation world is still being built in this session (entry is removed when the check is registered)" for k in ["C05","C09","C14","C19","C20"]}
+PENDING = {k: "claimed in DESIGN.md; its simulation world is still being built in this session (entry is removed when the check is registered)" for k in ["C09"]}
 
 CHECKS = {
  "C07": dict(engine="stream", design="§3 C07",
@@ -32,6 +32,22 @@ CHECKS = {
    technique="deterministic simulation: seeded baton scheduler over yield points inserted into tink's sources (go -overlay), sequential-equality oracle plus ThreadSanitizer run under the same deterministic schedules, rapid-minimised replay",
    text="Seeded exploration of interleavings: at check time every statement of every non-test source file of /repo gets a yield call (instrumented copies via -overlay, /repo untouched); 2..6 tasks use one shared factory primitive / handle / registry, only the baton holder runs, and a rapid-drawn plan decides every preemption, so one seed is one exact interleaving. Oracle 1: each concurrent call returns byte-for-byte what it returns alone (per-task RNG lanes make even Encrypt/Sign functions of their inputs; ML-KEM-style library-internal randomness is checked semantically), the shared read-only input arena is unchanged at every baton pass. Oracle 2: the same seeds run under -race with no harness-induced happens-before between tasks, so conflicting accesses are reported even when serialised, deterministically; TSan de-duplication is off so race findings shrink. Workload covers every catalogued key type of every class through the real factories, legacy adapters over a stub key manager, handle reads, primitive construction, registry lookups and key generation. Sampling, not proof.",
    note="Yield points exist in tink code only (stdlib/x-crypto/protobuf are atomic between them); TSan's bounded history; amd64 store ordering for the norace spin baton; registry writes are outside the property and the workload."),
+ "C05": dict(engine="rotation", design="§3 C05",
+   technique="deterministic simulation: seeded key-rotation rollout (administrator history, version skew, late/duplicated/reordered delivery, foreign keyset with RNG-scripted colliding key IDs) against a reference keyset-version model, rapid-minimised replay",
+   text="Seeded exploration of rotation rollouts over all nine primitive classes and every catalogued key type/variant plus stub custom key types (legacy adapters): a real keyset.Manager publishes versions; producers and consumers on lagging versions exchange messages through a network that delays, duplicates and reorders; a foreign administrator's key IDs are scripted through the RNG seam to collide. Oracle: outputs carry exactly the primary's prefix (independently computed) and, for deterministic classes, equal a single-key primitive of the primary; a consumer at version v accepts a message iff v holds an ENABLED entry with the producing key identity (content equal), otherwise rejects (disabled, deleted, destroyed, never-present, foreign); PRF sets mirror enabled entries; monitoring events name the key that did the work. Sampling, not proof.",
+   note="Manager correctness is C11's; error texts and order of trial decryption are not asserted; the RSA-PSS salt-length-0 serialization panic is a listed known finding (thorough tier)."),
+ "C14": dict(engine="atrest", design="§3 C14",
+   technique="deterministic simulation: seeded storage-fault injection (torn/cut/bit-rotted/duplicated/dropped/swapped/spliced stored bytes placed by walking the protobuf/JSON layout, short-reading and failing source) between the real keyset writers and readers, well-formedness and self-consistency oracles, rapid-minimised replay",
+   text="Seeded exploration of what the keyset readers make of faulted storage: real handles of every catalogued key type are written by the real binary/JSON writers (cleartext, KEK-encrypted with associated data, public-only) to a simulated device; the stored image suffers 1..3 field-aware storage faults, an enumeration of cuts at every field boundary, torn writes, proto-level edits, or is a hand-built below-minimum-strength key; it is read back through a short-reading/failing source. Oracle exactly as C14 states: no panic anywhere; error or a handle with >=1 key, distinct IDs, one ENABLED primary, known enums; images that are empty / lack an enabled primary / repeat an ID / use unknown enums are rejected; every primitive the factories build from an accepted handle is self-consistent (SLH-DSA excepted); keys below the stated strengths never yield a usable primitive. Sampling over fault images, not over arbitrary in-memory Keyset mutations.",
+   note="Reach is the fault images of really written keysets plus listed edits and garbage; a structure-aware fuzzer reaches more of the raw input space."),
+ "C19": dict(engine="memory", design="§3 C19",
+   technique="deterministic simulation: caller-owned memory as the faulty medium — arena canaries/spare-capacity patterns, address-overlap invariants and a twin-world (pristine vs byte-flipped) differential made exact by the RNG seam, over drawn operation histories; rapid-minimised replay",
+   text="Seeded exploration of operation histories in which the simulator owns every byte slice crossing the API: inputs live in an arena with canaries and patterned spare capacity; after every call the arena is checked (no write within length, spare capacity or guards), every returned slice's address range is checked against all inputs and against slices returned by other calls on live objects, and in the faulted twin world previously passed inputs and previously returned values are flipped at drawn instants while all later observations (Equal, accessors, KeysetInfo, primitive outputs under identical RNG streams) must equal the pristine world's. Accessors are found by reflection over every catalogued key type; constructors, parse paths, handles, exports, factory primitives, legacy adapters (stub key managers x 4 prefix types) and subtle constructors are driven. 15 genuine aliasing defects were found this way and repaired (known_findings.json). Sampling, not proof.",
+   note="Edge of the family (no schedule or clock): the in-family elements are the fault schedule over a history, invariants after every step and the RNG-seam twin world. Go's non-moving collector is assumed."),
+ "C20": dict(engine="entropy", design="§3 C20 + Appendix A",
+   technique="deterministic simulation: RNG seam with provenance logging, single-byte perturbation replays, legal short reads and scripted key-ID collisions over drawn call histories; rapid-minimised replay",
+   text="With crypto/rand.Reader behind the simulator's seam, C20's distributional statement becomes exact dataflow statements checked over drawn, interleaved call histories on 1..4 keys of every randomized key type: each random field tink copies into an output (IV/nonce/salt/nonce prefix, generated key material, key IDs) equals a contiguous range the RNG issued during that very call, consumption windows are disjoint and advancing (nothing cached or reused), each output that is a function of the draw (encapsulations, ECDSA/PSS/ML-DSA/SLH-DSA signatures, generated asymmetric keys) changes when any consumed byte within the scheme's randomness length is flipped and consumes at least that length, ephemeral public values are recomputed independently with crypto/ecdh, repeated signing/encryption/keygen never repeats, and ML-KEM encapsulations are checked through SetGlobalRandom. Faults: legal short reads of the RNG, MaybeReadByte noise, scripted ID collisions with re-draw. Sampling, not proof.",
+   note="Identity with the RNG's bytes gives freshness/uniformity for any sound RNG; the OS RNG itself is out of scope."),
 }
 
 def main():
@@ -65,6 +81,10 @@ def main():
             {"name": "stream", "path": "/verif/sim/worlds/stream", "serves_properties": ["C07"], "kind_free_text": "simulated device/medium/source around real streaming AEAD"},
             {"name": "instr", "path": "/verif/tools/instr", "serves_properties": ["C18"], "kind_free_text": "go/ast-based yield-point inserter producing a go build -overlay"},
             {"name": "sched", "path": "/verif/sim/worlds/sched", "serves_properties": ["C18"], "kind_free_text": "baton scheduler (simsched) + sequential oracle + race detector under deterministic schedules"},
+            {"name": "rotation", "path": "/verif/sim/worlds/rotation", "serves_properties": ["C05"], "kind_free_text": "administrator/producers/consumers/network/foreign keyset around the real manager and factories"},
+            {"name": "atrest", "path": "/verif/sim/worlds/atrest", "serves_properties": ["C14"], "kind_free_text": "real writers -> simulated device/medium with field-aware storage faults -> short-reading source -> real readers"},
+            {"name": "memory", "path": "/verif/sim/worlds/memory", "serves_properties": ["C19"], "kind_free_text": "arena-backed buffers, address-overlap invariants, twin-world differential"},
+            {"name": "entropy", "path": "/verif/sim/worlds/entropy", "serves_properties": ["C20"], "kind_free_text": "RNG provenance and byte-sensitivity over call histories"},
             {"name": "manager", "path": "/verif/sim/worlds/manager", "serves_properties": ["C11"], "kind_free_text": "operation histories of the real keyset.Manager vs reference model, scripted RNG"},
         ],
         "checks": checks,
